@@ -5,7 +5,7 @@
    Model/RemoteSpec.v (the specifications). *)
 From Oras Require Import Base.Prelude Base.Regex Generated.GC20 Generated.GC13 Model.Reference
   Model.Registry Model.RemoteClient Model.RemoteSpec
-  Model.Location Proofs.Reference Proofs.RemoteClient Proofs.RemoteSeek Proofs.RemoteRefine Proofs.Location.
+  Model.Location Proofs.Reference Proofs.RemoteClient Proofs.RemoteSeek Proofs.RemoteRefine Proofs.Location Proofs.RemotePaged.
 
 (* ------------------------------------------------------------------ *)
 (* Refinement: the client run against the registry model behaves as the content store
@@ -103,6 +103,57 @@ Theorem C13_predecessors_reflect :
        RDescs (referrers_of (subj_of subject_of) g (d_dg d))).
 Proof. exact predecessors_reflect. Qed.
 Print Assumptions C13_predecessors_reflect.
+
+(* Composition with C15 (Model/Paging.v): in every state the registry model reaches from
+   the empty registry by any request sequence the manifest digests are distinct and
+   non-empty, hence against a registry that PAGINATES the Referrers API in any legal way
+   (C15: any page split below the cap, any Link rendering that resolves, filtering announced
+   or not) the client's page loop delivers, concatenated, exactly the stored manifests with
+   the given subject (of the requested artifact type): Predecessors = concat of the pages. *)
+Theorem C13_registry_digests_distinct :
+  forall (H : str -> str) (sj : str -> option desc) (main other : str) (p : profile),
+    (forall c, H c <> []) ->
+    forall ob qs, keys_ok (fold_left (fun g q => fst (handle H sj main other p g q)) qs (reg0 ob)).
+Proof. exact reachable_keys_ok. Qed.
+Print Assumptions C13_registry_digests_distinct.
+
+Theorem C13_referrers_paged :
+  forall (sj : str -> option desc) (atype : str -> str) g dg (cap : nat) (ds : nat -> P.decision)
+         (render : nat -> P.url -> P.url -> str) (trailer : nat -> str)
+         (resolve : P.url -> str -> option P.url) (c : P.cfg) (path : str) (fuel : nat),
+    keys_ok g ->
+    P.c_kind c = P.KReferrers ->
+    (forall i base x, In x (map fst (ref_items sj atype g dg)) ->
+       contains P.c_gt (render i base (PP.link_target (ds i) base x)) = false) ->
+    (forall i base x, In x (map fst (ref_items sj atype g dg)) ->
+       resolve base (render i base (PP.link_target (ds i) base x)) = Some (PP.link_target (ds i) base x)) ->
+    (forall i, (Z.of_N (P.d_doc_len (ds i)) <= P.eff_limit (P.c_limit c))%Z) ->
+    (forall i, P.qget P.k_at (P.d_extra (ds i)) = None) ->
+    (length (ref_items sj atype g dg) < fuel)%nat ->
+    let t := P.loop (P.reg_serve P.KReferrers (ref_items sj atype g dg) cap ds render trailer) resolve
+                    (fun _ => false) c fuel 0 0 (P.mkUrl path (PP.referrers_query (P.c_at c))) [] in
+    P.t_out t = P.Done /\
+    concat (P.t_pages t) = P.filter_referrers (ref_items sj atype g dg) (P.c_at c) /\
+    (length (P.t_reqs t) <= S (length (ref_items sj atype g dg)))%nat.
+Proof. exact referrers_paged. Qed.
+Print Assumptions C13_referrers_paged.
+
+Theorem C13_predecessors_paged :
+  forall (sj : str -> option desc) (atype : str -> str) g dg cap ds render trailer resolve c path fuel,
+    keys_ok g -> P.c_kind c = P.KReferrers -> P.c_at c = [] ->
+    (forall i base x, In x (map fst (ref_items sj atype g dg)) ->
+       contains P.c_gt (render i base (PP.link_target (ds i) base x)) = false) ->
+    (forall i base x, In x (map fst (ref_items sj atype g dg)) ->
+       resolve base (render i base (PP.link_target (ds i) base x)) = Some (PP.link_target (ds i) base x)) ->
+    (forall i, (Z.of_N (P.d_doc_len (ds i)) <= P.eff_limit (P.c_limit c))%Z) ->
+    (forall i, P.qget P.k_at (P.d_extra (ds i)) = None) ->
+    (length (ref_items sj atype g dg) < fuel)%nat ->
+    let t := P.loop (P.reg_serve P.KReferrers (ref_items sj atype g dg) cap ds render trailer) resolve
+                    (fun _ => false) c fuel 0 0 (P.mkUrl path []) [] in
+    P.t_out t = P.Done /\
+    map fst (concat (P.t_pages t)) = map d_dg (referrers_of sj g dg).
+Proof. exact predecessors_paged. Qed.
+Print Assumptions C13_predecessors_paged.
 
 (* non-vacuity of the refinement hypotheses: a manifest pushed under a tag, resolved,
    fetched, re-tagged; a second manifest whose subject is the first one, found by
